@@ -14,6 +14,8 @@ fn main() {
         "C10" => engines::c10::main(&args),
         "C11" => engines::c11::main_c11(&args),
         "C12" => engines::c11::main_c12(&args),
+        "C26" => engines::c26::main(&args),
+        "C26child" => engines::c26::child_main(),
         other => {
             eprintln!("unknown engine {other}");
             2
